@@ -44,6 +44,18 @@ def generate(chk, prop, tier, seed):
                 b["fam"] = "exh-ren-cmt"
                 behs.append(b)
     if prop == "C08":
+        # the same single structural edits over the remaining construct kinds and TYPE / INTERFACE / ENUM definitions
+        cfg = "Perturb_c08c_%s.cfg" % ("quick" if tier == "quick" else "thorough")
+        r = tlc.run("MCPerturb.tla", cfg, timeout=6000)
+        if not r.ok():
+            raise MachineryError("TLC failed on %s: %s %s" % (cfg, r.invariant_violated, r.error))
+        chk.add_tlc(r)
+        chk.cov["tlc_runs"].append({"cfg": cfg, "generated": r.generated, "distinct": r.distinct, "behaviours": len(r.beh), "wall_s": r.wall_s})
+        for b in r.beh:
+            if b["ed"]:
+                b["fam"] = "exh-other-constructs"
+                behs.append(b)
+    if prop == "C08":
         # third family: ALL statement streams up to a bound over an alphabet of structural items, judged by Nest (Streams.tla)
         for cfg in (["Streams_quick3.cfg", "Streams_quick.cfg"] if tier == "quick" else ["Streams_thorough.cfg", "Streams_do.cfg"]):
             r = tlc.run("MCStreams.tla", cfg, timeout=20000)
@@ -442,7 +454,7 @@ def run(prop, tier=None, replay=None):
         c["tid"] = len(cases) + 1
         c["beh"] = b
         cases.append(c)
-    results = pmap(obs.run_jobs, [{"id": c["id"], "jobs": c["jobs"]} for c in cases], timeout=CASE_TIMEOUT_S)
+    results = pmap(obs.run_jobs, [{"id": c["id"], "jobs": c["jobs"]} for c in cases], timeout=CASE_TIMEOUT_S, batch=16)
     chk.phase("observe")
     live = []
     for c, r in zip(cases, results):
